@@ -11,7 +11,7 @@ ORACLE_RULE = ("C10: indicator kind (26, rotating) x random or degenerate stream
 ASSUMPTIONS = ["runs in which the library raises are left to C09", "candles_lifespan is not combined here (C15 owns trimming)",
                "TSI range slack comes from the reference budget and is skipped where the double-smoothed |momentum| is below twice its rounding budget",
                "TZ=UTC"]
-PARTIAL = ""
+PARTIAL = 'exact ordered field; invariants per call (reachable-state hypotheses such as gain, loss >= 0 as step lemmas); series versions for TR and SMA'
 
 
 def oracle(ctx):
